@@ -428,6 +428,21 @@ func runC08AuthOnlyAuthorize(c *Ctx, rule string, aoa *ssa.Function) {
 					c.ok(rule, key+"|membership", p.Exit, "s.Email equals an element of the allowed_emails set")
 					return
 				}
+				// ... or a direct lookup of s.Email in the set that hit: _, ok := allowedEmails[s.Email] (neutral batch 8)
+				if lookupHit(p, p.End(), fromExtract(p, param), func(k walk.DV) bool { return fieldLoadOn(p, k, emailF, walk.DV{V: sess}) }) {
+					c.ok(rule, key+"|membership", p.Exit, "s.Email is a key of the allowed_emails set")
+					return
+				}
+				// ... or the verdict IS that lookup's ok: `_, allowed := allowedEmails[s.Email]; return allowed`
+				if ex, ok := p.Resolve(rv).V.(*ssa.Extract); ok && ex.Index == 1 {
+					if lk, ok := ex.Tuple.(*ssa.Lookup); ok && lk.CommaOk {
+						lkDV := p.Op(ex.Tuple, p.Resolve(rv))
+						if fromExtract(p, param)(p.Op(lk.X, lkDV)) && fieldLoadOn(p, p.Op(lk.Index, lkDV), emailF, walk.DV{V: sess}) {
+							c.ok(rule, key+"|membership", p.Exit, "returns the ok of allowed_emails[s.Email]")
+							return
+						}
+					}
+				}
 			case 1:
 				// result of IsEndpointAllowed(endpoint with Host = domain part of s.Email, list built from the set)
 				if cl, ok := extractOfCall(p, rv, 0); ok && cl.C.StaticCallee() == isEndpointAllowed {
@@ -485,6 +500,11 @@ func runC08R5(c *Ctx) {
 			}
 			// subject: the address itself or the last '@'-separated element
 			endAnchored := isEmail(subj)
+			// ... or any suffix of the address, email[k:] — whatever k is, the test is anchored at the END of the address
+			// (email[strings.LastIndex(email, "@")+1:], neutral batch 9); the boundary obligation is separate
+			if sl, ok := subj.V.(*ssa.Slice); ok && sl.High == nil && isEmail(res(sl.X, subj)) {
+				endAnchored = true
+			}
 			if u, ok := subj.V.(*ssa.UnOp); ok {
 				if ia, ok := u.X.(*ssa.IndexAddr); ok {
 					spd := res(ia.X, subj)
